@@ -4,6 +4,8 @@ The theorems are about the executable model `I2N.Rules` that the compiled driver
 -/
 import I2N.Model.Rules
 import I2N.Lemmas.Rules
+import I2N.Extracted.GenRules
+import I2N.Lemmas.PyGenList
 namespace I2N.Props.C10
 deriving instance DecidableEq for Except
 open I2N.Rules I2N.Extracted.Rules I2N.Lemmas.Rules
@@ -512,5 +514,137 @@ example :
     [r1.2, r2.2].map (fun o => match o with
         | .created p _ (some f) st _ => (p.uid, f.status, st) | _ => ("", "", "")) =
     [("0", "FAIL", "fail"), ("0", "FAIL", "fail")] := by decide
+
+/-! ## The regenerated retry rule (`harness/pygen.py`)
+
+`I2N/Extracted/GenRules.lean` is regenerated on every run from the source of `TestNode.should_rerun` and
+`TestNode.shared_filtered_results` (Python AST → Lean `do` block, statement by statement: the literal-list loop is
+unrolled, `{*a} - {*b}` / `{*a} & {*b}` are `List.filter`, `len(…) > 0` is non-emptiness, the accumulation loop of
+`shared_filtered_results` is a `List.foldl`, `raise` is `throw`, log calls are dropped).  `I2N.Extracted.Rules` pins
+the literals; these two theorems pin the *control flow*, the order of the checks and which error wins.
+
+Encoding (the trivially checkable part of the tie, see `RERUN_SPEC` in harness/pygen.py): a result dictionary is the
+structure `Result` (`r["status"]` ↦ `r.status`, `r["name"]` ↦ `r.name`), a worker is `Option Worker` (`worker` ↦
+`w.isSome`, `worker.id` ↦ the id where Python evaluates it), parameters are the fields of `Cfg`. -/
+
+section Regenerated
+open I2N.Extracted.GenRules I2N.PyGen
+
+/-- **`filteredResults` is the Python source of `shared_filtered_results`** for every configuration, every
+`started_worker` (or none) and every list of shared results.  No hypotheses. -/
+theorem filteredResults_matches_source (c : Cfg) (started : Option Worker) (shared : List Result) :
+    genFilteredResults c started shared = filteredResults c started shared := by
+  unfold genFilteredResults filteredResults
+  have hf : ∀ f : String, shared.foldl (fun results result =>
+      if isSubstr f result.name = true then results ++ [result] else results) [] =
+      shared.filter (fun r => isSubstr f r.name) := by
+    intro f
+    have := foldl_append_if (fun r : Result => isSubstr f r.name) shared []
+    simpa using this
+  rcases started with _ | w
+  · simp [scopeFilter, hf]
+  · by_cases h1 : isSubstr "swarm" c.poolScope = true <;> by_cases h2 : c.netsSpawner = some "lxc" <;>
+      by_cases h3 : isSubstr "cluster" c.poolScope = true <;> by_cases h4 : c.netsSpawner = some "remote" <;>
+      simp [scopeFilter, scopeSwarm, scopeCluster, spawnerLxc, spawnerRemote, swarmOf, idOf, h1, h2, h3, h4, hf] <;>
+      exact hf _
+
+/-- the common end of every branch of `shouldRerun_matches_source`: all decided `if`s removed, the set tests
+rewritten to `all` / `any`, both sides syntactically equal -/
+local macro "rules_fin" : tactic => `(tactic|
+  (simp only [dryRunDefault, dryRunYes, *, if_false, Bool.false_eq_true, getNumeric,
+      maxTriesOf, rerunList, stopList, maxTriesDefault, maxTriesReplayDefault, maxTriesNoRerun, replayRerunDelimiter,
+      replayRerunDefault, allStatuses, PyGen.throw_bind, PyGen.pure_bind, if_true, ite_self, diff_isEmpty, inter_isEmpty,
+      Bool.not_not, Option.map, Bool.not_true, Bool.not_false, decide_eq_true_eq, ite_pure_bool]
+   rfl))
+
+/-- **The hand written `shouldRerun` is the Python source of `should_rerun`**: same Boolean or the same error (wrong
+worker, invalid rerun / stop status, non-integer or negative `max_tries` — in the order the Python checks them) for
+every configuration, worker and list of shared results.  No hypotheses. -/
+theorem shouldRerun_matches_source (c : Cfg) (w : Option Worker) (shared : List Result) :
+    genShouldRerun c w shared = shouldRerun c w shared := by
+  unfold genShouldRerun shouldRerun
+  by_cases h1 : (c.dryRun.getD "no" == "yes") = true
+  · simp [h1, dryRunDefault, dryRunYes]; rfl
+  by_cases h2 : c.flat = true
+  · simp [h1, h2, dryRunDefault, dryRunYes]; rfl
+  by_cases h3 : c.cloneSource = true
+  · simp [h1, h2, h3, dryRunDefault, dryRunYes]; rfl
+  by_cases h4 : wrongWorker c w = true
+  · have h4' : (w.isSome && !(isSubstr (idOf w) c.name)) = true := by
+      cases w <;> simp_all [wrongWorker, idOf]
+    simp [h1, h2, h3, h4, h4', dryRunDefault, dryRunYes]; rfl
+  have h4' : (w.isSome && !(isSubstr (idOf w) c.name)) = false := by
+    cases w <;> simp_all [wrongWorker, idOf]
+  have hstat : statusesOf c w shared = if (!c.stateful) = true then shared.map (fun r => lower r.status)
+      else (genFilteredResults c (c.startedWorker <|> w) shared).map (fun r => lower r.status) := by
+    simp only [statusesOf, filteredResults_matches_source]
+  cases hrep : truthy c.replay <;> cases hst : c.stateful <;> cases hm : c.maxTries
+  case false.false.none => rules_fin
+  case false.true.none => rules_fin
+  case true.false.none => rules_fin
+  case true.true.none => rules_fin
+  all_goals (rename_i s; cases hp : parseInt s <;> rules_fin)
+
+/-- the generated definitions compute (they are not stuck on anything): a second try is granted after one failure,
+refused after a pass when only failures are to be repeated, an unknown status is rejected before `max_tries` is read,
+and a foreign worker is rejected first -/
+example : genShouldRerun { name := "n.net1", maxTries := some "2" } (some ⟨"sw", "net1"⟩) [⟨"n.net1", "FAIL", some 1⟩]
+    = .ok true := by decide
+example : genShouldRerun { name := "n.net1", maxTries := some "3", rerunStatus := some "fail" } none
+    [⟨"n.net1", "PASS", some 1⟩] = .ok false := by decide
+example : genShouldRerun { name := "n.net1", maxTries := some "x", stopStatus := some "passed" } none [] =
+    .error .badStopStatus := by decide
+example : genShouldRerun { name := "n.net1", rerunStatus := some "bogus" } (some ⟨"sw", "net2"⟩) [] =
+    .error .runtimeError := by decide
+example : genFilteredResults { name := "n", netsSpawner := some "lxc" } (some ⟨"sw", "net1"⟩)
+    [⟨"a.sw.net1", "PASS", none⟩, ⟨"a.sw.net2", "FAIL", none⟩] = [⟨"a.sw.net1", "PASS", none⟩] := by decide
+
+/-! ### `default_run_decision`
+
+Translated in the state monad `StateT Bool (Except Err)`: the state is whether the instance attribute `should_rerun` has
+been replaced by `lambda _: False` (that assignment is the one pinned statement, it stands for `set true`);
+`self.should_rerun(worker)` is the action `rerunM` (the generated `genShouldRerun` unless disabled).  `a or <action>` is
+printed as statements (`pyTmp := a; if !pyTmp then pyTmp := ← action`), so the action runs only when Python runs it. -/
+
+local macro "run_simp" " [" ts:Lean.Parser.Tactic.simpLemma,* "]" : tactic => `(tactic|
+  simp [rerunM, StateT.run, bind, StateT.bind, Except.bind, Except.map, pure, StateT.pure, Except.pure, throw,
+    throwThe, MonadExceptOf.throw, StateT.lift, liftM, monadLift, MonadLift.monadLift, set, StateT.set,
+    MonadStateOf.set, MonadState.set, $ts,*])
+
+/-- **The hand written `defaultRunDecision` is the Python source of `default_run_decision`**: same decision, same
+"`should_rerun` disabled" flag afterwards, or the same error — for every configuration, worker, result list, outcome of
+`is_finished` / `scan_states` and initial flag.  No hypotheses. -/
+theorem defaultRunDecision_matches_source (c : Cfg) (w : Worker) (shared : List Result)
+    (finished scanRun disabled : Bool) :
+    (genDefaultRunDecision c w shared finished scanRun).run disabled =
+      defaultRunDecision c w shared finished scanRun disabled := by
+  unfold genDefaultRunDecision defaultRunDecision rerunM
+  rw [← shouldRerun_matches_source, ← filteredResults_matches_source]
+  by_cases h1 : (c.dryRun.getD "no" == "yes") = true
+  · run_simp [h1, dryRunDefault, dryRunYes]
+  by_cases h2 : c.flat = true
+  · run_simp [h1, h2, dryRunDefault, dryRunYes]
+  by_cases h3 : c.cloneSource = true
+  · run_simp [h1, h2, h3, dryRunDefault, dryRunYes]
+  by_cases h4 : isSubstr w.id c.name = true
+  · generalize genShouldRerun c (some w) shared = r
+    generalize hF : (genFilteredResults c c.startedWorker shared).isEmpty = fe
+    generalize hE : shared.isEmpty = se
+    cases hst : c.stateful <;> cases se <;> cases finished <;> cases scanRun <;> cases fe <;> cases disabled <;>
+      cases r <;> run_simp [h1, h2, h3, h4, hst, dryRunDefault, dryRunYes, hF, hE]
+  · run_simp [h1, h2, h3, h4, dryRunDefault, dryRunYes]
+
+/-- the generated definition computes: a stateless node without results runs; a stateful node whose state is missing
+runs; with no result and an available state the retry rule is switched off; a foreign worker is rejected -/
+example : (genDefaultRunDecision { name := "n.net1" } ⟨"sw", "net1"⟩ [] false false).run false = .ok (true, false) := by
+  decide
+example : (genDefaultRunDecision { name := "n.net1", stateful := true } ⟨"sw", "net1"⟩ [] false true).run false =
+    .ok (true, false) := by decide
+example : (genDefaultRunDecision { name := "n.net1", stateful := true, maxTries := some "3" } ⟨"sw", "net1"⟩ [] false
+    false).run false = .ok (false, true) := by decide
+example : (genDefaultRunDecision { name := "n.net1" } ⟨"sw", "net2"⟩ [] false false).run false =
+    .error .runtimeError := by decide
+
+end Regenerated
 
 end I2N.Props.C10
